@@ -183,6 +183,13 @@ const allocSlack, allocFactor = 4096, 96
 // runC01 runs every entry point on the case and applies oracles (a)-(e).
 func runC01(c decodeCase, measure bool) (decodeCase, error) {
 	in := unHex(c.Input)
+	// IsMessage is the multiplexing pre-check applied to arbitrary datagrams: it must be total too
+	arena := gen.Arena(in, 0, c.Poison)
+	if perr := pbt.Safely(func() { _ = stun.IsMessage(arena) }); perr != nil {
+		c.Entry = "IsMessage"
+
+		return c, fmt.Errorf("IsMessage on a %d-byte input: %w", len(in), perr)
+	}
 	var first *decodeOutcome
 	for _, e := range entryPoints {
 		o, perr := runEntry(c, e, in, measure)
